@@ -364,7 +364,31 @@ CORPUS = [
  ('Struct("x"/IfThenElse(this._building, Byte, Int16ub))', dict(x=1), {}),
  ('Struct("x"/If(this._parsing, Byte), "y"/If(this._building, Byte), "z"/If(this._sizing, Byte))', dict(x=1, y=2, z=3), {}),
  ('Pointer(2, Byte)', 7, {}),
+ # the direction flags, read at the level of every composite that makes its own scope and through the wrappers around it
+ ('FocusedSeq("c", "n"/Const(b"\\x01"), "c"/Computed(this._parsing))', None, {}),
+ ('FocusedSeq("c", "n"/Const(b"\\x01"), "c"/Computed(this._building))', None, {}),
+ ('FocusedSeq("c", "n"/Const(b"\\x01"), "c"/Computed(this._sizing))', None, {}),
+ ('FocusedSeq("v", "v"/Bytes(1 + 2 * this._parsing + this._building))', b'ab', {}),
+ ('FocusedSeq("v", "v"/IfThenElse(this._parsing, Int16ub, Int8ub))', 5, {}),
+ ('Sequence(Computed(this._parsing), Computed(this._building), Computed(this._sizing))', [None, None, None], {}),
+ ('Sequence(Byte, Bytes(1 + this._parsing))', [1, b'a'], {}),
+ ('Union(0, "a"/Byte, "p"/Computed(this._parsing), "q"/Computed(this._building))', dict(a=1), {}),
+ ('Struct("s"/FocusedSeq("c", Const(b"x"), "c"/Computed(this._._parsing)), "t"/FocusedSeq("c", Const(b"y"), "c"/Computed(this._building)))', dict(s=None, t=None), {}),
+ ('Struct("i"/Struct("p"/Computed(this._parsing), "q"/Computed(this._._building), "r"/Bytes(1 + this._parsing)))', dict(i=dict(r=b'a')), {}),
+ ('Array(2, Computed(this._building))', [None, None], {}),
+ ('Array(2, FocusedSeq("c", Byte, "c"/Computed(this._parsing)))', [None, None], {}),
+ ('Prefixed(Byte, FocusedSeq("c", "c"/Computed(this._parsing)))', None, {}),
+ ('Prefixed(Byte, Sequence(Computed(this._parsing), GreedyBytes))', [None, b'xy'], {}),
+ ('FixedSized(3, FocusedSeq("v", "v"/Bytes(1 + this._parsing)))', b'a', {}),
+ ('Bitwise(FocusedSeq("c", Padding(8), "c"/Computed(this._parsing)))', None, {}),
+ ('Switch(this._parsing, {True: Byte, False: Int16ub})', 5, {}),
+ ('Struct("k"/Byte, "v"/Switch(this._building, {True: Byte, False: Int16ub}))', dict(k=1, v=5), {}),
+ ('GreedyRange(FocusedSeq("x", "x"/Byte, Check(this._parsing)))', [1, 2], {}),
+ ('FocusedSeq("x", "x"/Byte, Check(this._building))', 1, {}),
+ ('Sequence(Byte, Check(this._building))', [1, None], {}),
  ('Struct("a"/Padded(3, Byte), "b"/Aligned(4, Int16ub, pattern=b"\\xff"))', dict(a=1, b=2), {}),
+ ('Struct("a"/Aligned(4, Byte, pattern=b"\\xff"), "b"/Aligned(2, Bytes(3), pattern=b"Q"), "c"/Padded(3, Byte, pattern=b"\\x01"))', dict(a=1, b=b'xyz', c=2), {}),
+ ('Aligned(4, Byte, pattern=b"\\xfe")', 1, {}),
  ('Switch(this._params.k, {1: Byte}, default=Int16ub)', 5, dict(k=1)),
  ('Switch(this._params.k, {1: Byte}, default=Int16ub)', 5, dict(k=2)),
  ('Struct("v"/Default(Byte, 0), "w"/Default(Bytes(1), b"\\x00"))', dict(v=0, w=b''), {}),
